@@ -7,4 +7,9 @@ EXTRA = {
     "C01_w4_seed_1": ["C03"], "C02_w4_seed_3": ["C12"], "C05_w4_seed_1": ["C08"], "C05_w4_seed_2": ["C08"], "C06_w4_seed_1": ["C07"], "C06_w4_seed_2": ["C08"],
     "C09_w4_seed_1": ["C19", "C06"], "C09_w4_seed_2": ["C08"], "C09_w4_seed_3": ["C05", "C06"], "C12_w4_seed_1": ["C02"],
     "C12_w4_seed_2": ["C02", "C14"], "C14_w4_seed_2": ["C05", "C09"], "C14_w4_seed_3": ["C04"], "C20_w4_seed_2": ["C08"], "C17_w4_seed_3": ["C12"],
+    # wave 6
+    "C01_w6_seed_1": ["C03"], "C01_w6_seed_2": ["C03"], "C01_w6_seed_3": ["C03", "C10"], "C03_w6_seed_3": ["C02"], "C04_w6_seed_2": ["C05", "C06"],
+    "C05_w6_seed_2": ["C08"], "C05_w6_seed_3": ["C06", "C08"], "C07_w6_seed_1": ["C06"], "C08_w6_seed_1": ["C07"], "C09_w6_seed_3": ["C16"],
+    "C10_w6_seed_1": ["C06"], "C10_w6_seed_2": ["C06", "C07"], "C12_w6_seed_3": ["C02"], "C13_w6_seed_1": ["C06"], "C14_w6_seed_3": ["C04", "C10"],
+    "C19_w6_seed_1": ["C05", "C06"],
 }
